@@ -125,3 +125,76 @@ Proof.
   unfold load. rewrite ds_create. cbn [load_tables].
   destruct (parseAML ds_tree [] 1 (table_image payload)) as [[[|] s]| |]; cbn [fst]; try discriminate. contradiction.
 Qed.
+
+(** ---- a sequence of tables, modulo what is not proved about the state ParseAML returns ---- *)
+Definition INV (tree : T) (g : ghost) (earlier : list (list N)) (h : N) : Prop :=
+  R tree g /\ info_valid tree /\ glive g 0 /\ groot g 0 /\
+  (exists o, tget tree 0 = Some o /\ o_opcode o = aml_pOpIntScopeBlock) /\
+  TM2 tree g /\ FN tree /\ typed tree /\ pool_ok earlier tree /\
+  (forall i o, tget tree i = Some o -> o_tableHandle o < h).
+
+Definition fits (tree : T) (data : list N) : Prop :=
+  image_small data /\
+  (let L := N.of_nat (length (t_pool tree)) + 4 * N.of_nat (length data) + 2 in
+   L + L * (8 * N.of_nat (length data) + 3) + 4 <= InvalidIndex).
+
+(** the conjuncts of [INV] that are NOT derived for the state a successful ParseAML returns ([R], valid indexes and
+    slices-inside are) *)
+Definition RES (s' : pstate) (h : N) : Prop :=
+  forall g', R (p_tree s') g' ->
+    glive g' 0 /\ groot g' 0 /\ (exists o, tget (p_tree s') 0 = Some o /\ o_opcode o = aml_pOpIntScopeBlock) /\
+    TM2 (p_tree s') g' /\ FN (p_tree s') /\ typed (p_tree s') /\
+    (forall i o, tget (p_tree s') i = Some o -> o_tableHandle o < h + 1).
+
+Fixpoint SEQ (tree : T) (earlier : list (list N)) (h : N) (payloads : list (list N)) : Prop :=
+  match payloads with
+  | [] => True
+  | p :: rest =>
+      let data := table_image p in
+      fits tree data /\
+      forall s, parseAML tree earlier h data = Ok (true, s) -> RES s h /\ SEQ (p_tree s) (earlier ++ [data]) (h + 1) rest
+  end.
+
+Theorem load_tables_never_panics_mod : forall payloads tree g earlier h,
+  INV tree g earlier h -> SEQ tree earlier h payloads -> fst (fst (load_tables tree earlier h payloads)) <> 2.
+Proof.
+  induction payloads as [|p rest IH]; intros tree g earlier h HI HS; cbn [load_tables]; [cbn; discriminate|].
+  destruct HI as (HR & Hi & H0 & Hr0 & Hsb & HTM & HFN & Hty & Hpool & Hh).
+  cbn [SEQ] in HS. cbv zeta in HS. destruct HS as ((Him & Hcap) & Hnext).
+  assert (Hfresh : forall i o, tget tree i = Some o -> o_tableHandle o <> h) by (intros i o Ho E; specialize (Hh i o Ho); lia).
+  pose proof (parseAML_never_panics tree g earlier h (table_image p) HR Hi H0 Hr0 Hsb HTM HFN Hty Hpool Hfresh Him Hcap) as W.
+  cbv zeta. destruct (parseAML tree earlier h (table_image p)) as [[[|] s]| |] eqn:E; cbn [fst]; try discriminate; [|contradiction].
+  destruct W as (g' & HR' & Hi' & _). destruct (Hnext s eq_refl) as (Hres & Hseq).
+  destruct (Hres g' HR') as (A1 & A2 & A3 & A4 & A5 & A6 & A7).
+  assert (Him' : image_ok (table_image p)) by (destruct Him as (Hb & Hl); split; [exact Hb|unfold two32 in *; lia]).
+  destruct (parseAML_inv tree earlier h (table_image p) true s Him' Hpool E) as (Hp' & _).
+  apply (IH (p_tree s) g' (earlier ++ [table_image p]) (h + 1)); [|exact Hseq].
+  repeat (split; [assumption|]). exact A7.
+Qed.
+
+Lemma ds_INV : INV ds_tree ds_ghost [] 1.
+Proof.
+  split; [exact ds_R|].
+  split; [unfold info_valid; apply (ds_all (fun i o => o_opcode o <> opFreed -> opInfo (o_infoIndex o) <> None)); intros n o Hlt Hn _;
+          ds_cases n Hlt Hn o ltac:(vm_compute; discriminate)|].
+  split; [ds_live|]. split; [apply groot_chk; vm_compute; reflexivity|]. split; [eexists; split; vm_compute; reflexivity|].
+  split; [unfold TM2; apply (ds_all (fun m mo => o_opcode mo = aml_pOpMethod -> mtyped2 ds_tree ds_ghost m)); intros n o Hlt Hn Hop;
+          ds_cases n Hlt Hn o ltac:(vm_compute in Hop; discriminate)|].
+  split; [unfold FN; apply (ds_all (fun i o => o_opcode o = opFreed -> name_lead (o_name o) = false)); intros n o Hlt Hn Hop;
+          ds_cases n Hlt Hn o ltac:(vm_compute in Hop; discriminate)|].
+  split; [unfold typed; apply (ds_all (fun i o => o_opcode o <> opFreed -> o_opcode o = aml_pOpIntNamePathOrMethodCall -> exists tbl sl, o_value o = Some (VBytes tbl sl)));
+          intros n o Hlt Hn _ Hop; ds_cases n Hlt Hn o ltac:(vm_compute in Hop; discriminate)|].
+  split.
+  { unfold pool_ok. rewrite Forall_forall. intros o Hin. destruct (In_nth_error _ _ Hin) as (n & Hn).
+    assert (Hlt : (n < 6)%nat).
+    { assert (Hl : length (t_pool ds_tree) = 6%nat) by (vm_compute; reflexivity). rewrite <- Hl. apply nth_error_Some. rewrite Hn. discriminate. }
+    ds_cases n Hlt Hn o ltac:(exact I). }
+  apply (ds_all (fun i o => o_tableHandle o < 1)). intros n o Hlt Hn. ds_cases n Hlt Hn o ltac:(vm_compute; reflexivity).
+Qed.
+
+(** [load]: any number of tables over the default scopes *)
+Theorem load_never_panics_mod : forall payloads,
+  SEQ ds_tree [] 1 payloads -> fst (fst (load payloads)) <> 2.
+Proof.
+  intros payloads HS. unfold load. rewrite ds_create. exact (load_tables_never_panics_mod payloads ds_tree ds_ghost [] 1 ds_INV HS).
+Qed.
